@@ -306,17 +306,18 @@ func (sc *SecretManagerClient) GenerateSecret(resourceName string) (secret *secu
 	// Store the new secret in the secretCache and trigger the periodic rotation for workload certificate
 	sc.registerSecret(*ns)
 
+	// If the CA response resulted in discovery of a new root, trigger a ROOTCA request to refresh trust anchor.
+	// This must happen whichever resource was requested: a ROOTCA request that misses the cache talks to the CA too,
+	// and other ROOTCA subscribers would otherwise keep the old root until the next workload certificate rotation.
+	oldRoot := sc.cache.GetRoot()
+	if !bytes.Equal(oldRoot, ns.RootCert) {
+		cacheLog.Info("Root cert has changed, start rotating root cert")
+		// We store the oldRoot only for comparison and not for serving
+		sc.cache.SetRoot(ns.RootCert)
+		sc.OnSecretUpdate(security.RootCertReqResourceName)
+	}
 	if resourceName == security.RootCertReqResourceName {
 		ns.RootCert = sc.mergeTrustAnchorBytes(ns.RootCert)
-	} else {
-		// If periodic cert refresh resulted in discovery of a new root, trigger a ROOTCA request to refresh trust anchor
-		oldRoot := sc.cache.GetRoot()
-		if !bytes.Equal(oldRoot, ns.RootCert) {
-			cacheLog.Info("Root cert has changed, start rotating root cert")
-			// We store the oldRoot only for comparison and not for serving
-			sc.cache.SetRoot(ns.RootCert)
-			sc.OnSecretUpdate(security.RootCertReqResourceName)
-		}
 	}
 
 	return ns, nil
